@@ -152,6 +152,9 @@ func cellTime(s string) int {
 	if err != nil || strconv.FormatInt(n, 10) != s {
 		return -99999
 	}
+	if n == -62135596800 { // time.Time{}
+		return jrn.ZeroT
+	}
 	return int(n - jrn.Base)
 }
 func cellOptTime(s string) abs.Opt[int] {
